@@ -36,6 +36,7 @@ const (
 	optBadPath                      // one more lambda option, designated to a node that does not exist (inside the deepest nested graph where there is one): the call fails before anything runs
 	optCancel                       // the call runs under a context of its own that one of its nodes (object.cancelKey) cancels while it executes: the run finds its context cancelled at the top of the next iteration of its main loop — and no other call does
 	optSharedInput                  // the call's input is an object shared by every call with this bit (it carries no call tag): the same slice, with spare capacity, and the same message objects — a caller may hand one immutable input to any number of concurrent calls, the framework must never write into it
+	optStateMod                     // the call brings a state modifier of its own (compose.WithStateModifier): every resume of ITS session hands it the state restored from ITS checkpoint (ckpt kind; read-only: the modifier checks whose run and whose state it is given)
 )
 
 // spare copies a slice into one with spare capacity.
@@ -87,6 +88,9 @@ type object struct {
 	// collection: a workflow returns on the first failing node); objects that have some get a faulted
 	// and a healthy spec in every case, and the sequential fault scenario (main.go)
 	faultIn []int
+	// wantOpt: an option bit that at least one spec of every case carries and at least one does not (ckpt:
+	// the per-call state modifier — a modifier that reaches a call which brought none is the failure)
+	wantOpt int
 	// the node that cancels the context of a call made with optCancel (or with an input for which
 	// wantsCancel says so); "" = the object has no cancellation point
 	cancelKey   string
